@@ -271,7 +271,8 @@ def extract(src_path: Path | None = None) -> dict:
         "ifexp_order": ["CUnknownChild"], "compare": "CmpUnknown", "call_fallback": "CallUnknown",
         "call_arity": False, "call_kw_reject": False, "unary_qual": None, "lib_parents": [], "attr_consts": [],
         "derived_role": "RoleUnknown", "num_stoich": "NsUnknown", "ia_setter": "IaUnknown",
-        "rename": "RenUnknown", "ref_id": "RefUnknown", "math_names": "MathNamesUnknown", "shapes_ok": False, "unrecognised": [],
+        "rename": "RenUnknown", "ref_id": "RefUnknown", "math_names": "MathNamesUnknown", "body": "BodyUnknown",
+        "escape": "EscUnknown", "shapes_ok": False, "unrecognised": [],
     }  # fmt: skip
     try:
         tree = ast.parse(path.read_text())
@@ -377,9 +378,35 @@ def extract(src_path: Path | None = None) -> dict:
         facts["math_names"] = "MathIds"
     else:
         facts["unrecognised"].append("identifiers inside the math (raw names / ids)")
+    # which statements of a function body _handle_body converts: every one (the last result is returned), or the last only
+    if variant.get("_handle_body") == 0:
+        facts["body"] = "BodyAllLast"
+    elif shapes.get("_handle_body") in BODY_LAST_ONLY:
+        facts["body"] = "BodyLastOnly"
+    # the class of characters RE_TO_SBML escapes: the complement of [0-9_a-zA-Z], or Python's Unicode-aware \W
+    facts["escape"] = escape_class(tree)
+    if facts["escape"] == "EscUnknown":
+        facts["unrecognised"].append("character class of RE_TO_SBML")
     facts["shapes_ok"] = not facts["unrecognised"]
     facts["variants"] = {k: v for k, v in variant.items()}
     return facts
+
+
+# normalised shapes of a _handle_body that converts only the last statement (regression shape of seeded C08-4)
+BODY_LAST_ONLY = [
+    "def _handle_body(stmts):\n    if len(stmts) == 0:\n        return libsbml.ASTNode()\n    return _convert_node(stmts[-1])",
+    "def _handle_body(stmts):\n    if not stmts:\n        return libsbml.ASTNode()\n    return _convert_node(stmts[-1])",
+]
+
+
+def escape_class(tree: ast.Module) -> str:
+    for node in tree.body:
+        if isinstance(node, ast.Assign) and len(node.targets) == 1 and ast.unparse(node.targets[0]) == "RE_TO_SBML":
+            v = node.value
+            if isinstance(v, ast.Call) and ast.unparse(v.func) == "re.compile" and len(v.args) == 1 and not v.keywords \
+                    and isinstance(v.args[0], ast.Constant) and isinstance(v.args[0].value, str):  # fmt: skip
+                return {"([^0-9_a-zA-Z])": "EscAscii", "(\\W)": "EscUnicodeWord", "([^\\w])": "EscUnicodeWord"}.get(v.args[0].value, "EscUnknown")
+    return "EscUnknown"
 
 
 IMPORT_SHAPED = ["read", "import_from_path"]
@@ -469,7 +496,9 @@ def to_coq(f: dict, imp: dict | None = None) -> str:
         "(* REGENERATED from src/mxlpy/sbml/_export.py by harness/c08_extract.py; do not edit.\n"
         "   Unrecognised code yields *Unknown / K_OTHER / f_shapes_ok = false, which breaks C08_facts_pinned. *)\n"
         "From Coq Require Import ZArith QArith List Bool String.\nImport ListNotations.\n"
-        "From SbmlExp Require Import SbmlMath SbmlSession.\n"
+        "From SbmlExp Require Import SbmlMath SbmlIdU SbmlSession.\n"
+        "(* RE_TO_SBML: which characters of a name are escaped as __<ord>__ *)\n"
+        f"Definition gen_escape : escape_class := {f.get('escape', 'EscUnknown')}.\n"
         "(* src/mxlpy/sbml/_import.py: read() and import_from_path *)\n"
         f"Definition gen_import_facts : import_facts := mkImportFacts {imp['read']} {imp['loader']} {common.cbool(imp['shapes_ok'])}.\n"
         "Definition gen_facts : facts := mkFacts\n"
@@ -479,5 +508,5 @@ def to_coq(f: dict, imp: dict | None = None) -> str:
         f"  {qtab(f['unary_qual'])}\n"
         f"  {common.clist(common.cstr(p) for p in f['lib_parents'])}\n"
         f"  {common.clist('(' + common.cstr(k) + ', ' + v + ')' for k, v in f['attr_consts'])}\n"
-        f"  {f['derived_role']} {f['num_stoich']} {f['ia_setter']} {f['rename']} {f['ref_id']} {f['math_names']} {common.cbool(f['shapes_ok'])}.\n"
+        f"  {f['derived_role']} {f['num_stoich']} {f['ia_setter']} {f['rename']} {f['ref_id']} {f['math_names']} {f.get('body', 'BodyUnknown')} {common.cbool(f['shapes_ok'])}.\n"
     )
